@@ -507,3 +507,79 @@ def c09(ctx):
         os.remove(r["dump"])
     ctx.vh(["v-stream", "-seed", str(ctx.seed), "-runs", "2" if q else "9", "-property", "C09"], timeout=3000)
     ctx.exhaustive = not q
+
+
+@prop("C15")
+def c15(ctx):
+    ctx.rule = ("M: Pipeline.tla with several calls on ONE persistent channel/ring: the channel is empty whenever no call runs, for every "
+                "combination of sync/async path, stage-1 abort and stage-2 failure position in consecutive calls. G/V: every history of "
+                "length 2 (thorough: 3) over 15 call kinds (Parse/ParseND x small/large x ok / stage-1 failure / early and late stage-2 "
+                "failure, copy on/off, in-place edits and deletions, Deserialize into the object) on one reused ParsedJson: each call's "
+                "outcome and document must equal the by-construction expectation AND the same call on a fresh object (identical tape and "
+                "string buffer); the recorded hand-off events of all calls are validated by TLC (channel empty at every Enter and Exit). "
+                "Serializer and destination reuse across modes is exercised in C11. Non-trivial = one complete history.")
+    c = live_consts(ctx)
+    q = quick(ctx)
+    m = pipeline_model(ctx, c, "{0, 1, 6, 17}" if q else "{0, 1, 2, 6, 15, 17, 33}", 2 if q else 3, "multi-call, live constants", timeout=3000)
+    if not m["ok"]:
+        log("[C15] Pipeline.tla (multi-call) does not hold with the live constants")
+    d = ctx.dir("reuse")
+    t = os.path.join(d, "reuse.ndjson")
+    ctx.vh(["v-pipe", "-family", "reuse", "-n", "2" if q else "3", "-maxhist", "0" if q else "1200", "-trace", t,
+            "-seed", str(ctx.seed), "-property", "C15"], timeout=7200)
+    pipeline_trace_validate(ctx, c, t, "C15")
+    if not m["ok"] and not ctx.mismatches:
+        raise Infra("Pipeline.tla (multi-call) fails with the live constants but no history misbehaved on the real code:\n%s" % m["out"][-2500:])
+    ctx.exhaustive = q
+
+
+@prop("C16")
+def c16(ctx):
+    ctx.rule = ("M: Alias.tla -- the documents of an original and of its clone change only through their own edits (action property), and no "
+                "string word of a copy-mode tape refers to the input while exactly the escape-free ones do without copying; G: every history "
+                "of <= 3 operations drawn from {overwrite the input with 0xFF (copy mode), Clone (fresh and into a reused destination), "
+                "SetString/SetInt/SetNull/delete-first-member on the original or on the clone at every position} is replayed and every read "
+                "API, plus a serialize round trip, of BOTH objects is compared with the spec's two documents; stream values are re-read "
+                "after the stream moved on and other values were recycled (v-stream). Non-trivial = history with at least one operation.")
+    r = ctx.tlc("MC_Alias", consts={"MaxOps": 3 if quick(ctx) else 4}, dump="states", label="alias histories", timeout=3000)
+    ctx.vh(["g-alias", "-dump", r["dump"], "-expect", str(r["distinct"]), "-property", "C16"], timeout=7200)
+    os.remove(r["dump"])
+    ctx.vh(["v-stream", "-seed", str(ctx.seed), "-runs", "2" if quick(ctx) else "6", "-property", "C16"], timeout=3000)
+    ctx.exhaustive = True
+
+
+@prop("C20", level="exploration")
+def c20(ctx):
+    ctx.rule = ("M: Pools.tla (3 clients x 2 pools x 2 objects): exclusive ownership between Get and Put. V: N = 4 x GOMAXPROCS goroutines "
+                "(thorough: 8 x) each run a seeded sequence of Parse (small / above the concurrent threshold / invalid), ParseND + Clone + "
+                "edit, Serialize/Deserialize in rotating modes with reused Serializer and destination, and ParseNDStream on their OWN "
+                "objects; every operation's result signature must equal the signature the same sequence produced when run alone; the "
+                "Get/Put hook events of the package-level pools are validated by TLC against Pools.tla (an object is never handed out "
+                "while it is out); the whole run is repeated under the Go race detector. Non-trivial = pool event while >= 2 pooled "
+                "objects were out (goroutines overlapping in a pooled section). Distinct = distinct worker seeds.")
+    ctx.trusted = ["Go race detector (does not see stores made by the assembly)"]
+    q = quick(ctx)
+    ctx.tlc("Pools", label="pool discipline")
+    d = ctx.dir("conc")
+    for race in ((False, True) if True else (False,)):
+        t = os.path.join(d, "pools-%s.ndjson" % race)
+        rep = ctx.vh(["v-conc", "-trace", t, "-seed", str(ctx.seed + (7 if race else 0)),
+                      "-ops", ("12" if race else "24") if q else "120",
+                      "-mult", ("1" if race else "4") if q else "8", "-property", "C20"], race=race, timeout=7200, allow_fail=True)
+        if rep.get("failed"):
+            err = rep.get("stderr_head", "") + rep.get("stderr", "")
+            if "DATA RACE" in err:
+                i = err.index("DATA RACE")
+                ctx.mismatches.append({"property": "C20", "sig": "data-race:" + err[i:i + 300].replace("\n", " ")[:200],
+                                       "want": "no data race between goroutines using independent objects",
+                                       "got": "the race detector reported a race", "detail": err[max(0, i - 50):i + 3000]})
+                continue
+            raise Infra("v-conc failed:\n%s" % err[-3000:])
+        files = {"trace.ndjson": open(t, "rb").read()}
+        r = ctx.tlc("PoolsTrace", files=files, workers=1, label="pool trace", check=False)
+        res_path = os.path.join(r["dir"], "result.json")
+        if not os.path.exists(res_path):
+            raise Infra("PoolsTrace did not complete:\n%s" % r["out"][-2000:])
+        res = json.load(open(res_path))
+        for b in res["bad"][:5]:
+            ctx.mismatches.append({"property": "C20", "sig": "pool:%s" % b[0], "want": "Get/Put discipline of Pools.tla", "got": json.dumps(b)})
